@@ -242,7 +242,8 @@ class Executor(Exec):
             raise Unsupported("nested quantifier generator")
         g = gen.generators[0]
         it = self.eval(g.iter, st)
-        j = z3.Int(fresh_name("k"))
+        # canonical bound-variable names: two evaluations of the same specification text give the same term
+        j = z3.Int(f"qk%{len(self.binder_marks)}")
         saved_env = st.env
         st.env = dict(st.env)
         mark = len(st.pc)
